@@ -60,10 +60,11 @@ type Case struct {
 
 // Call is one API call inside a history or a concurrent round.
 type Call struct {
-	Kind string `json:"k"`           // "compile" | "run" | "compile+run"
-	Prog int    `json:"p"`           // index into Case.Srcs
-	Text int    `json:"t"`           // index into Case.Texts
-	G    int    `json:"g,omitempty"` // goroutine the call is issued from (conc)
+	Kind string `json:"k"`             // "compile" | "run" | "compile+run"
+	Prog int    `json:"p"`             // index into Case.Srcs
+	Text int    `json:"t"`             // index into Case.Texts
+	G    int    `json:"g,omitempty"`   // goroutine the call is issued from (conc)
+	Own  int    `json:"own,omitempty"` // kind "runfiles-new": the call searches its OWN copy of the text (file number Own)
 	// filled by worker
 	Digest string `json:"d,omitempty"`
 	T0     int64  `json:"t0,omitempty"`
